@@ -113,3 +113,52 @@ def local_add_rechecks_unprotected(ck: Checker, rule: str) -> None:
     ck.require(ok, rule, site_fn, site, "an unprotected file under an object name is re-hashed before add may skip it as existing",
                f"{why}: ObjectDB.add skips an oid whose file exists, and the post-copy loop then write-protects it - an empty / partial file left under the object's name by an interrupted add (dvc_objects' reflink creates the final name before cloning into it) becomes a trusted object that no later integrity check re-hashes",
                construct="LocalHashFileDB.add / unprotected residue re-checked")
+
+
+def deleted_files_before_dirs(ck: Checker, rule: str) -> None:
+    """hashfile.checkout._checkout: in the loop that removes the entries the target no longer has, file entries are
+    handled before directory entries.  Removing a directory entry (its .dir object may well be in the cache, so the
+    guard lets it pass) takes every file below it along - including one whose own object is *not* in the cache and
+    whose own guarded removal would have refused."""
+    fn = ck.prog.func("hashfile.checkout", "_checkout")
+    g = ck.cfg(fn)
+    rem = [(n, c) for n in g.nodes.values() for c in calls_at(n) if call_name(c) == "_remove" and n.loops]
+    ck.floor(rule, len(rem), 1, "guarded removals inside loops of _checkout")
+    n_del = 0
+    for n, c in rem:
+        h = g.nodes[n.loops[-1]]
+        if h.kind != "for":
+            continue
+        it = h.ast.iter
+        alts = [it] + [getattr(d.ast, "value", None) for x in walk_expr(it) if isinstance(x, ast.Name) for d in reaching_defs(g, h.id, x.id) if getattr(d.ast, "value", None) is not None]
+        if not any(".deleted" in norm(a) for a in alts):
+            continue
+        n_del += 1
+        ok, why = False, f"the removal loop iterates `{norm(it)}` in diff order"
+        for a in alts:
+            if isinstance(a, ast.Call) and call_name(a) == "sorted" and a.args and ".deleted" in norm(a.args[0]):
+                key = next((k.value for k in a.keywords if k.arg == "key"), None)
+                rev = next((k.value for k in a.keywords if k.arg == "reverse"), None)
+                ktxt = ""
+                if isinstance(key, ast.Lambda):
+                    ktxt = norm(key.body)
+                elif isinstance(key, ast.Name):
+                    ent = ck.prog.lookup_name(fn, key.id)
+                    ktxt = " ".join(norm(r.value) for r in ast.walk(ent.node) if isinstance(r, ast.Return) and r.value is not None) if hasattr(ent, "node") else ""
+                dirs_last = "isdir" in ktxt and not ktxt.startswith("not ") and not (isinstance(rev, ast.Constant) and rev.value is True)
+                depth_first = "len(" in ktxt and ".key" in ktxt and isinstance(rev, ast.Constant) and rev.value is True
+                if dirs_last or depth_first:
+                    ok = True
+                else:
+                    why = f"the removal loop is sorted by `{ktxt}`, which does not put directory entries last"
+        if not ok:
+            # or: directory entries are deferred inside the loop body (skipped here, handled by a later loop)
+            dir_tests = [t for t in g.nodes.values() if t.kind == "test" and h.id in t.loops and "isdir" in norm(t.ast)]
+            for t in dir_tests:
+                r = g.reach([d for lab, d in t.succ if lab == "T"], skip_node=lambda x: x.id == h.id, skip_edge=lambda p, l, q: l == "exc")
+                if n.id not in r:
+                    ok = True
+        ck.require(ok, rule, fn, h, "entries that disappear are removed files-first (directory entries last)",
+                   f"{why}: when the directory entry comes first its guarded removal passes (the .dir object is in the cache) and deletes the whole directory, including a file whose own object is not in the cache - without force, prompt or error",
+                   construct=f"for {norm(h.ast.target)} in {norm(it)[:40]} / files before directories")
+    ck.floor(rule, n_del, 1, "removal loops over diff.deleted in _checkout")
